@@ -201,6 +201,11 @@ func InModule(fn *ssa.Function) bool {
 	if o := fn.Origin(); o != nil && o != fn {
 		return InModule(o)
 	}
+	// synthetic wrappers ($bound, $thunk, interface method wrappers) have no package: enter them, they only forward
+	// to the wrapped method, whose own package decides
+	if fn.Synthetic != "" {
+		return true
+	}
 	return false
 }
 
